@@ -752,6 +752,9 @@ pub fn run_property(prop: &str, tier: &str) -> i32 {
     if matches!(prop, "C06" | "C08" | "C09") && !rep.over_cap() {
         byte_sweep(&rep, prop);
     }
+    if !rep.over_cap() {
+        cli_binding(&rep, prop);
+    }
     if prop == "C08" {
         crate::crash::run_into(&rep);
     }
@@ -1019,6 +1022,148 @@ fn byte_sweep(rep: &Report, prop: &str) {
             }
         });
     }
+}
+
+/// DESIGN 4.8: the deciding runs use the library built with the `verif` feature. Every RUN transition from the
+/// depth<=1 states of project solo is repeated through the production binary (feature off): exit code, resulting
+/// tree and the set of rewritten paths must equal the in-process result. This also covers src/main.rs
+/// (the mapping of -N, -n, -r, verify, clean).
+fn cli_binding(rep: &Report, prop: &str) {
+    let p = project("solo");
+    let ver0 = vec![0; p.sources.len()];
+    let pristine = p.pristine(&ver0);
+    let built = {
+        let b = Bench::new();
+        state_of(&b.run(&p, &pristine, &Mode::Build, &p.sels[0], true).after)
+    };
+    let mut states: Vec<(Tree, Vec<Op>)> = vec![(pristine.clone(), vec![]), (built.clone(), vec![Op::Run { mode: Mode::Build, sel: 0, tn: true }])];
+    let mut seen: HashSet<u64> = states.iter().map(|s| tree_key(&s.0)).collect();
+    for (t, h) in states.clone() {
+        for op in ops_for(&p, &t, prop, false, false) {
+            if let Some(t2) = apply_pure(&p, &t, &op) {
+                if seen.insert(tree_key(&t2)) {
+                    let mut h2 = h.clone();
+                    h2.push(op);
+                    states.push((t2, h2));
+                }
+            }
+        }
+    }
+    if !rep.thorough() {
+        // quick: the two roots and every third depth-1 state
+        let mut k = 0;
+        states.retain(|_| {
+            k += 1;
+            k <= 2 || k % 3 == 0
+        });
+    }
+    let mut jobs = vec![];
+    for (si, _) in states.iter().enumerate() {
+        for op in ops_for(&p, &states[si].0, prop, true, false) {
+            jobs.push((si, op));
+        }
+    }
+    rep.set("production_binary_transitions", json!(jobs.len()));
+    sharded_dyn(rep, par_threads() * 3, |_k, _n, next, rep| {
+        let b = Bench::new();
+        loop {
+            let i = next();
+            if i >= jobs.len() {
+                break;
+            }
+            if rep.over_cap() {
+                rep.note_cap("wall-clock cap in the production-binary binding");
+                break;
+            }
+            let (si, op) = &jobs[i];
+            let (t, h) = &states[*si];
+            if let Op::Run { mode, sel, tn } = op {
+                let lib = b.run(&p, t, mode, &p.sels[*sel], *tn);
+                b.materialize(t);
+                let before = snapshot(&b.base());
+                let mut args: Vec<String> = match mode {
+                    Mode::Build => vec![],
+                    Mode::InMemoryBuild => vec!["-N".into()],
+                    Mode::Verify => vec!["verify".into()],
+                    Mode::Clean => vec!["clean".into()],
+                };
+                args.push("-q".into());
+                if !*tn && *mode != Mode::Clean {
+                    args.push("-n".into());
+                }
+                if p.sels[*sel].recursive {
+                    args.push("-r".into());
+                }
+                args.extend(p.sels[*sel].inputs.iter().cloned());
+                let a: Vec<&str> = args.iter().map(|s| s.as_str()).collect();
+                let (code, to) = run_cli(&b.base(), &a, &[], 30.0);
+                let after = snapshot(&b.base());
+                rep.tv(1);
+                rep.tr(1);
+                let rew = |b4: &Snapshot, af: &Snapshot| changed_paths(b4, af).into_iter().filter(|(p_, _)| af.get(p_).map(|m| m.node != Node::Dir).unwrap_or(true)).collect::<Vec<_>>();
+                let same = !to && (code == 0) == lib.ok && (code == 0 || code == 1) && state_of(&after) == state_of(&lib.after) && rew(&before, &after) == rew(&lib.before, &lib.after);
+                if !same {
+                    rep.violate(
+                        "binary-differs-from-library",
+                        format!(
+                            "[solo] {} ; txtpp {:?}: exit {code} (timeout {to}), rewrote {:?}; the library run {} and rewrote {:?}{}",
+                            h.iter().map(|o| o.describe(&p)).collect::<Vec<_>>().join(" ; "),
+                            args,
+                            rew(&before, &after),
+                            if lib.ok { "succeeds" } else { "fails" },
+                            rew(&lib.before, &lib.after),
+                            if state_of(&after) != state_of(&lib.after) { "; resulting trees differ" } else { "" }
+                        ),
+                        json!({"engine": "H-cli", "prop": prop, "history": h.iter().map(|o| o.to_json()).collect::<Vec<_>>(), "op": op.to_json()}),
+                    );
+                }
+            }
+        }
+    });
+}
+
+pub fn replay_cli(v: &Value) -> bool {
+    let p = project("solo");
+    let hist: Vec<Op> = v["history"].as_array().map(|a| a.iter().map(Op::from_json).collect()).unwrap_or_default();
+    let op = Op::from_json(&v["op"]);
+    let b = Bench::new();
+    let mut t = p.pristine(&vec![0; p.sources.len()]);
+    for h in &hist {
+        match h {
+            Op::Run { mode, sel, tn } => t = state_of(&b.run(&p, &t, mode, &p.sels[*sel], *tn).after),
+            other => {
+                if let Some(t2) = apply_pure(&p, &t, other) {
+                    t = t2
+                }
+            }
+        }
+    }
+    if let Op::Run { mode, sel, tn } = &op {
+        let lib = b.run(&p, &t, mode, &p.sels[*sel], *tn);
+        b.materialize(&t);
+        let before = snapshot(&b.base());
+        let mut args: Vec<String> = match mode {
+            Mode::Build => vec![],
+            Mode::InMemoryBuild => vec!["-N".into()],
+            Mode::Verify => vec!["verify".into()],
+            Mode::Clean => vec!["clean".into()],
+        };
+        args.push("-q".into());
+        if !*tn && *mode != Mode::Clean {
+            args.push("-n".into());
+        }
+        if p.sels[*sel].recursive {
+            args.push("-r".into());
+        }
+        args.extend(p.sels[*sel].inputs.iter().cloned());
+        let a: Vec<&str> = args.iter().map(|s| s.as_str()).collect();
+        let (code, to) = run_cli(&b.base(), &a, &[], 30.0);
+        let after = snapshot(&b.base());
+        println!("replay: txtpp {:?} exit {code}; library ok={}; binary rewrote {:?}, library rewrote {:?}", args, lib.ok, changed_paths(&before, &after), changed_paths(&lib.before, &lib.after));
+        let rew = |b4: &Snapshot, af: &Snapshot| changed_paths(b4, af).into_iter().filter(|(p_, _)| af.get(p_).map(|m| m.node != Node::Dir).unwrap_or(true)).collect::<Vec<_>>();
+        return to || (code == 0) != lib.ok || state_of(&after) != state_of(&lib.after) || rew(&before, &after) != rew(&lib.before, &lib.after);
+    }
+    false
 }
 
 pub fn replay_sweep(v: &Value) -> bool {
